@@ -170,13 +170,12 @@ Lemma num_shown : forall d v, (0 <? v)%Z || ((v <? 0)%Z && negb d) = true ->
 Proof.
   intros d v C.
   destruct (Z.ltb_spec 1 v), (Z.ltb_spec v 0), (Z.eqb_spec v 1), (Z.ltb_spec 0 v), d; simpl in *;
-    try reflexivity; try discriminate; lia.
+    try reflexivity; try congruence; lia.
 Qed.
 
-Lemma den_shown : forall v, (v <? -1)%Z = negb (- v =? 1)%Z.
+Lemma den_shown : forall v, (v <? 0)%Z = true -> (v <? -1)%Z = negb (- v =? 1)%Z.
 Proof.
-  intros v. destruct (v <? -1)%Z eqn:A, (- v =? 1)%Z eqn:D; try reflexivity; exfalso;
-    rewrite ?Z.ltb_lt, ?Z.ltb_ge, ?Z.eqb_eq, ?Z.eqb_neq in *; lia.
+  intros v C. apply Z.ltb_lt in C. destruct (Z.ltb_spec v (-1)), (Z.eqb_spec (- v) 1); simpl; try reflexivity; lia.
 Qed.
 
 Lemma pass_loop : forall sel h t names sig, (forall u, In u names -> u <> "") ->
@@ -189,22 +188,120 @@ Lemma slash_join : forall s t : string,
 Proof. intros s [|c t]; reflexivity. Qed.
 
 (* ====================================================================== *)
+(* the hand-written parser in terms of the tests the code makes             *)
+(* ====================================================================== *)
+Lemma match_hat : forall A (f : string -> A) (g : A) s,
+  match s with String "^"%char r => f r | _ => g end =
+  match s with String c r => if Ascii.eqb c "^" then f r else g | EmptyString => g end.
+Proof. intros A f g [|[[] [] [] [] [] [] [] []] r]; reflexivity. Qed.
+
+Lemma match_minus : forall A (f : string -> A) (g : ascii -> string -> A) (h : A) s,
+  match s with String "-"%char r => f r | String c r => g c r | EmptyString => h end =
+  match s with String c r => if Ascii.eqb c "-" then f r else g c r | EmptyString => h end.
+Proof. intros A f g h [|[[] [] [] [] [] [] [] []] r]; reflexivity. Qed.
+
+Lemma match_dot : forall A (f : string -> A) (g : A) s,
+  match s with String "."%char r => f r | _ => g end =
+  match s with String c r => if Ascii.eqb c "." then f r else g | EmptyString => g end.
+Proof. intros A f g [|[[] [] [] [] [] [] [] []] r]; reflexivity. Qed.
+
+Definition parse_exp_t (divs : Z) (s : string) : option (Z * string) :=
+  let s1 := if String.eqb (py_str_take 1 s) "^" then py_str_drop 1 s else s in
+  if prefix "-" s1 then
+    let s2 := py_str_drop 1 s1 in
+    if py_match_digit (py_str_take 1 s2)
+    then match py_int_of_str (py_str_take 1 s2) with Val d => Some ((divs * - d)%Z, py_str_drop 1 s2) | Raise _ => None end
+    else None
+  else if py_match_digit (py_str_take 1 s1)
+       then match py_int_of_str (py_str_take 1 s1) with Val d => Some ((divs * d)%Z, py_str_drop 1 s1) | Raise _ => None end
+       else Some (divs, s1).
+
+Lemma prefix_char : forall c s, prefix (String c "") s = match s with String d _ => Ascii.eqb c d | EmptyString => false end.
+Proof.
+  intros c [|d r]; simpl; [reflexivity|].
+  destruct (ascii_dec c d) as [e|n]; destruct (Ascii.eqb_spec c d); try contradiction; [destruct r|]; reflexivity.
+Qed.
+
+Lemma eqb_take1 : forall c s, String.eqb (py_str_take 1 s) (String c "") = match s with String d _ => Ascii.eqb d c | EmptyString => false end.
+Proof. intros c [|d r]; simpl; [reflexivity|]. destruct (Ascii.eqb d c); reflexivity. Qed.
+
+Lemma digit_val_is : forall c, digit_val c = if py_is_digit c then Some (Z.of_nat (nat_of_ascii c - 48)) else None.
+Proof. reflexivity. Qed.
+
+Lemma parse_tail : forall divs s1,
+  match s1 with
+  | "" => Some (divs, s1)
+  | String "-"%char r => match r with
+                 | "" => None
+                 | String c r2 => match digit_val c with Some d => Some ((divs * - d)%Z, r2) | None => None end
+                 end
+  | String c r2 => match digit_val c with Some d => Some ((divs * d)%Z, r2) | None => Some (divs, s1) end
+  end =
+  if prefix "-" s1 then
+    if py_match_digit (py_str_take 1 (py_str_drop 1 s1))
+    then match py_int_of_str (py_str_take 1 (py_str_drop 1 s1)) with Val d => Some ((divs * - d)%Z, py_str_drop 1 (py_str_drop 1 s1)) | Raise _ => None end
+    else None
+  else if py_match_digit (py_str_take 1 s1)
+       then match py_int_of_str (py_str_take 1 s1) with Val d => Some ((divs * d)%Z, py_str_drop 1 s1) | Raise _ => None end
+       else Some (divs, s1).
+Proof.
+  intros divs [|c r]; [reflexivity|].
+  destruct c as [[] [] [] [] [] [] [] []]; try (destruct r; reflexivity).
+  (* the minus sign *)
+  destruct r as [|c2 r2]; [reflexivity|].
+  cbn [prefix py_str_drop py_str_take py_match_digit py_int_of_str]. rewrite digit_val_is.
+  destruct (ascii_dec "-" "-"); [|congruence]. destruct r2; destruct (py_is_digit c2); reflexivity.
+Qed.
+
+Lemma parse_exp_tests : forall divs s, parse_exp divs s = parse_exp_t divs s.
+Proof.
+  intros divs s. unfold parse_exp, parse_exp_t. rewrite parse_tail, match_hat.
+  change "^" with (String "^"%char "") at 2. rewrite eqb_take1.
+  destruct s as [|c r]; [reflexivity|]. cbn [py_str_drop]. destruct (Ascii.eqb c "^"); reflexivity.
+Qed.
+
+(* ====================================================================== *)
 Section Agree.
 Variable N : numops.
 Variable M : qmodule.
 Let T := qm_classes M.
 Notation num := (num N).
+Notation pyval := (pyval N).
+Notation gval := (gval N).
 
-(* SI.siunit *)
+(* the object of the generated code that a value of the model stands for *)
+Definition conc (v : pyval) : gval :=
+  match v with
+  | VNamed c a u => GNamed c a u
+  | VSI sg a => GSI a sg (si_unit_text sg)
+  | VNum x => GNum x
+  | VStr => GStrObj
+  end.
+
+Definition rmap {A B : Type} (f : A -> B) (r : result A) : result B :=
+  match r with Val a => Val (f a) | Raise e => Raise e end.
+
+(* the closed world of the model: quantity objects are instances of the module's classes,
+   signatures have one entry per SI unit *)
+Definition val_ok (v : pyval) : Prop :=
+  match v with
+  | VNamed c _ _ => exists q, get_class T c = Some q
+  | VSI sg _ => List.length sg = 9%nat
+  | _ => True
+  end.
+
+Definition res_ok (r : result pyval) : Prop := match r with Val v => val_ok v | Raise _ => True end.
+
 Ltac index_names j x v Hx Hv sg :=
   change (0 + j)%nat with j; cbn [py_attr_sisig bind]; rewrite ?(py_index_nth _ sg j v Hv);
   change ["rad"; "sr"; "kg"; "m"; "s"; "A"; "K"; "mol"; "cd"] with si_names;
   rewrite ?(py_index_nth _ si_names j x Hx); cbn [bind].
 
+(* SI.siunit *)
 Theorem gen_SI_siunit_eq : forall (a : num) sg u d h t, List.length sg = 9%nat ->
-  gen_SI_siunit N (GSI a sg u) d h t = Val (siunit sg d h t).
+  gen_SI_siunit N M (GSI a sg u) d h t = Val (siunit sg d h t).
 Proof.
-  intros a sg u d h t Hl. unfold gen_SI_siunit, siunit, siunit_with.
+  intros a sg u d h t Hl. unfold gen_SI_siunit, siunit, siunit_with. cbv zeta.
   change (py_range 0 9) with (py_range_from (Z.of_nat 0) (List.length si_names)).
   rewrite (py_for_range_zip _ (fun x v st => Val (pstep h t (sel_num d) st x v)) _ si_names sg 0 (eq_sym Hl)).
   2:{ intros j x v st Hx Hv. index_names j x v Hx Hv sg. unfold pstep, sel_num, seg.
@@ -216,7 +313,7 @@ Proof.
   - rewrite (py_for_range_zip _ (fun x v st => Val (pstep h t sel_den st x v)) _ si_names sg 0 (eq_sym Hl)).
     2:{ intros j x v st Hx Hv. index_names j x v Hx Hv sg. unfold pstep, sel_den, seg.
         destruct (v <? 0)%Z eqn:C; [|reflexivity].
-        rewrite den_shown, py_len_pos, py_str_of_int_zstr.
+        rewrite (den_shown v C), py_len_pos, py_str_of_int_zstr.
         destruct (String.eqb st ""), (- v =? 1)%Z; cbn [bind negb]; rewrite ?sapp_assoc; reflexivity. }
     rewrite (pass_loop sel_den h t si_names sg si_names_nonempty). cbn [bind].
     set (s := join_items h t (pass_items (sel_num true) si_names sg)).
@@ -224,4 +321,1308 @@ Proof.
     rewrite <- slash_join. destruct (0 <? py_len tt)%Z; reflexivity.
   - cbn [bind py_len String.length Z.of_nat Z.ltb Z.compare]. reflexivity.
 Qed.
+
+Lemma siunit_text : forall (a : num) sg u, List.length sg = 9%nat ->
+  gen_SI_siunit N M (GSI a sg u) true "" "." = Val (si_unit_text sg).
+Proof. intros. apply gen_SI_siunit_eq. assumption. Qed.
+
+Ltac psimp :=
+  cbn [bind conc rmap py_type py_type_eqb py_is_number py_isinstance_Quantity py_isinstance_SI py_issubclass_Quantity
+       py_float py_float_new py_val_times py_float_times py_float_over py_attr_unit py_attr_sisig py_set_unit py_set_sisig
+       py_type_cls py_construct_type negb orb andb fst snd].
+
+Lemma py_class_get : forall c, py_class M c = match get_class T c with Some q => Val q | None => Raise Unmodelled end.
+Proof. reflexivity. Qed.
+
+Lemma py_truediv_checked : forall a b : num, py_truediv N a b = checked_div N a b.
+Proof. reflexivity. Qed.
+
+Lemma py_units_get_factor : forall q u, py_units_get N (qc_units q) u = class_factor N q u.
+Proof. reflexivity. Qed.
+
+(* ---------- displayvalue, __str__ ---------- *)
+Theorem gen_Quantity_displayvalue_eq : forall c (a : num) u,
+  gen_Quantity_displayvalue N M (GNamed c a u) = displayvalue N M (VNamed c a u).
+Proof.
+  intros. unfold gen_Quantity_displayvalue, displayvalue, with_class, py_cls_units. cbv zeta. psimp.
+  rewrite py_class_get. fold T. destruct (get_class T c) as [q|]; [|reflexivity]. psimp.
+  rewrite py_units_get_factor. destruct (class_factor N q u); reflexivity.
+Qed.
+
+Theorem gen_SI_displayvalue_eq : forall (a : num) sg u,
+  gen_SI_displayvalue N M (GSI a sg u) = displayvalue N M (VSI sg a).
+Proof. reflexivity. Qed.
+
+(* the text of str(q): str(displayvalue), a blank, the display spelling of the unit *)
+Theorem gen_Quantity___str___eq : forall c (a : num) u,
+  gen_Quantity___str__ N M (GNamed c a u) =
+  match displayvalue N M (VNamed c a u) with
+  | Raise e => Raise e
+  | Val d => rmap (fun s => [PNum d; PStr " "; PStr s]) (str_suffix N M (VNamed c a u))
+  end.
+Proof.
+  intros. unfold gen_Quantity___str__. cbv zeta. rewrite gen_Quantity_displayvalue_eq.
+  unfold str_suffix. destruct (displayvalue N M (VNamed c a u)) as [d|e] eqn:D; [|reflexivity]. psimp.
+  unfold py_cls_displayunits, with_class. rewrite py_class_get. fold T.
+  destruct (get_class T c) as [q|]; [|reflexivity]. psimp.
+  unfold py_display_get, display_of. destruct (glookup u (qc_display q)) as [[s0|r]|]; reflexivity.
+Qed.
+
+Theorem gen_SI___str___eq : forall (a : num) sg u,
+  gen_SI___str__ N M (GSI a sg u) = Val [PNum a; PStr " "; PStr u].
+Proof. reflexivity. Qed.
+
+(* str(x) evaluated for its effect *)
+Definition str_effect (v : pyval) : result unit :=
+  match v with
+  | VNamed _ _ _ => match str_suffix N M v with Val _ => Val tt | Raise e => Raise e end
+  | _ => Val tt
+  end.
+
+Lemma dyn_str_effect_eq : forall v, dyn_str_effect N M (conc v) = str_effect v.
+Proof.
+  intros [c a u|sg a|x|]; try reflexivity.
+  unfold dyn_str_effect, str_effect. cbv zeta. psimp. rewrite gen_Quantity___str___eq.
+  unfold str_suffix. destruct (displayvalue N M (VNamed c a u)); [|reflexivity].
+  destruct (with_class _ _ _); reflexivity.
+Qed.
+
+Lemma refuse_effect : forall v, is_quantity N v = true ->
+  (do _ <- str_effect v; Raise ValueError) = rmap conc (refuse_after_formatting N M v).
+Proof.
+  intros [c a u|sg a|x|] H; try discriminate; unfold str_effect, refuse_after_formatting.
+  - destruct (str_suffix N M (VNamed c a u)); reflexivity.
+  - reflexivity.
+Qed.
+
+(* ---------- cls(value, unit): Quantity.__new__ + __init__ ---------- *)
+(* constructing a quantity FROM a quantity / SI value is outside the model *)
+Theorem gen_Quantity_construct_eq : forall c (v : pyval) unit, is_quantity N v = false ->
+  gen_Quantity_construct N M c (conc v) unit = rmap conc (mk N M c v unit).
+Proof.
+  intros c v unit Hv.
+  unfold gen_Quantity_construct, gen_Quantity___new__, gen_Quantity___init__, mk, with_class,
+    py_cls_units, py_cls_baseunit, base_unit. cbv zeta.
+  rewrite !py_class_get. fold T. destruct (get_class T c) as [q|] eqn:E; [|destruct unit; reflexivity].
+  destruct unit as [u|]; psimp.
+  - unfold py_str_in. destruct (gmem u (qc_units q)); psimp; [|reflexivity].
+    destruct v as [c2 a2 u2|sg a2|x|]; try discriminate; psimp; [|reflexivity].
+    rewrite py_units_get_factor. destruct (class_factor N q u); reflexivity.
+  - destruct (qc_base q) as [b|r] eqn:B; psimp; [|reflexivity].
+    rewrite py_units_get_factor. destruct (class_factor N q b) as [f|e]; psimp; [|reflexivity].
+    destruct v as [c2 a2 u2|sg a2|x|]; try discriminate; psimp; [|reflexivity].
+    rewrite py_class_get. fold T. rewrite E. psimp. rewrite B. reflexivity.
+Qed.
+
+Lemma mk_num_none_shape : forall c x r, mk N M c (VNum x) None = Val r -> exists y b, r = VNamed c y b.
+Proof.
+  intros c x r. unfold mk, with_class. destruct (get_class (qm_classes M) c) as [q|]; [|discriminate].
+  destruct (base_unit q) as [b|]; [|discriminate]. destruct (class_factor N q b) as [f|]; [|discriminate].
+  intros H. inversion H. eauto.
+Qed.
+
+(* self._val(si) *)
+Theorem gen_Quantity__val_eq : forall c (a x : num) u,
+  gen_Quantity__val N M (GNamed c a u) x = rmap conc (q_val N M c x u).
+Proof.
+  intros. unfold gen_Quantity__val, q_val. cbv zeta. psimp.
+  change (GNum x) with (conc (VNum x)). rewrite gen_Quantity_construct_eq by reflexivity.
+  destruct (mk N M c (VNum x) None) as [r|e] eqn:E; [|reflexivity].
+  destruct (mk_num_none_shape _ _ _ E) as (y & b & ->). reflexivity.
+Qed.
+
+(* ---------- SI(value, unit) ---------- *)
+Theorem gen_SI___new___eq : forall (v : pyval) (u : string), is_quantity N v = false ->
+  gen_SI___new__ N M (conc v) u = match v with VNum x => Val x | _ => Raise ValueError end.
+Proof. intros [c a u0|sg a|x|] u H; try discriminate; reflexivity. Qed.
+
+(* SI(x): the constructor as the methods call it (no unit text) *)
+Lemma gen_SI_construct_plain : forall x : num,
+  gen_SI_construct N M (GNum x) "" = Val (conc (VSI sig0 x)).
+Proof.
+  intros. unfold gen_SI_construct, gen_SI___new__, gen_SI___init__. cbv zeta. psimp.
+  change (String.eqb "" "") with true. cbv iota. psimp.
+  rewrite siunit_text by reflexivity. reflexivity.
+Qed.
+
+Theorem gen_SI__val_eq : forall sg (a x : num),
+  gen_SI__val N M (conc (VSI sg a)) x = Val (conc (VSI sg x)).
+Proof.
+  intros. unfold gen_SI__val. cbv zeta. rewrite gen_SI_construct_plain. reflexivity.
+Qed.
+
+(* ---------- Quantity.sisig(): the nine positions read out of _sidict ---------- *)
+Local Open Scope list_scope.
+Definition sidict_ints (d : list (gstr * gint)) : Prop := forall k g, glookup k d = Some g -> exists z, g = GInt z.
+Definition sig_at (d : list (gstr * gint)) (u : string) : Z :=
+  match glookup u d with Some (GInt v) => v | _ => 0%Z end.
+
+Lemma py_list_set_app : forall pre x tail v,
+  py_list_set (pre ++ x :: tail) (Z.of_nat (List.length pre)) v = Val (pre ++ v :: tail).
+Proof.
+  intros. unfold py_list_set. destruct (Z.of_nat (List.length pre) <? 0)%Z eqn:E; [apply Z.ltb_lt in E; lia|].
+  rewrite Nat2Z.id. clear E. induction pre as [|p pre IH]; simpl; [reflexivity|].
+  destruct (py_list_set_nat (pre ++ x :: tail) (List.length pre) v) as [l|]; [|discriminate].
+  inversion IH. reflexivity.
+Qed.
+
+Lemma py_index_app : forall A (pre : list A) x tail, py_index (pre ++ x :: tail) (Z.of_nat (List.length pre)) = Val x.
+Proof.
+  intros. apply py_index_nth. rewrite nth_error_app2 by lia. rewrite Nat.sub_diag. reflexivity.
+Qed.
+
+(* a loop over range(k, k + n) that reads names[i] : the body sees the name and the index *)
+Fixpoint py_fold_idx {St : Type} (names : list string) (k : nat) (g : string -> nat -> St -> result St) (st : St) : result St :=
+  match names with
+  | [] => Val st
+  | u :: r => do st' <- g u k st; py_fold_idx r (S k) g st'
+  end.
+
+Lemma py_for_range_names : forall (St : Type) (g : string -> nat -> St -> result St) (body : Z -> St -> result St)
+  (names : list string) k,
+  (forall j u st, nth_error names j = Some u -> body (Z.of_nat (k + j)) st = g u (k + j)%nat st) ->
+  forall st, py_for (py_range_from (Z.of_nat k) (List.length names)) body st = py_fold_idx names k g st.
+Proof.
+  induction names as [|u names IH]; intros k Hb st; [reflexivity|]. simpl.
+  pose proof (Hb 0%nat u st eq_refl) as H0. rewrite Nat.add_0_r in H0. rewrite H0.
+  destruct (g u k st) as [st'|e]; simpl; [|reflexivity].
+  replace (Z.of_nat k + 1)%Z with (Z.of_nat (S k)) by lia.
+  apply IH. intros j u' st'' Hu. replace (S k + j)%nat with (k + S j)%nat by lia. apply Hb; assumption.
+Qed.
+
+Definition sisig_step (d : list (gstr * gint)) (u : string) (k : nat) (ret : list Z) : result (list Z) :=
+  if gmem u d then py_list_set ret (Z.of_nat k) (sig_at d u) else Val ret.
+
+Lemma sisig_fold : forall d names pre tail,
+  List.length tail = List.length names -> Forall (eq 0%Z) tail ->
+  py_fold_idx names (List.length pre) (sisig_step d) (pre ++ tail) = Val (pre ++ map (sig_at d) names).
+Proof.
+  intros d. induction names as [|u names IH]; intros pre tail Ht Hz.
+  - destruct tail; [reflexivity|discriminate].
+  - destruct tail as [|z tail]; [discriminate|]. inversion Hz as [|? ? Hz0 Hz1]; subst.
+    cbn [py_fold_idx map].
+    assert (Hstep : sisig_step d u (List.length pre) (pre ++ 0%Z :: tail) = Val ((pre ++ [sig_at d u]) ++ tail)).
+    { unfold sisig_step. destruct (gmem u d) eqn:G.
+      - rewrite py_list_set_app, <- app_assoc. reflexivity.
+      - unfold sig_at. unfold gmem in G. destruct (glookup u d); [discriminate|]. rewrite <- app_assoc. reflexivity. }
+    rewrite Hstep. cbn [bind].
+    replace (S (List.length pre)) with (List.length (pre ++ [sig_at d u])) by (rewrite app_length; simpl; lia).
+    replace (pre ++ sig_at d u :: map (sig_at d) names) with ((pre ++ [sig_at d u]) ++ map (sig_at d) names)
+      by (rewrite <- app_assoc; reflexivity).
+    apply IH; [simpl in Ht; lia|assumption].
+Qed.
+
+Hypothesis Hsidict : sidict_wf T = true.
+
+Lemma glookup_in : forall V k (d : list (gstr * V)) v, glookup k d = Some v -> In (GStr k, v) d.
+Proof.
+  induction d as [|[g w] d IH]; simpl; intros v H; [discriminate|].
+  destruct g as [s0|r]; simpl in H.
+  - destruct (String.eqb k s0) eqn:E; [apply String.eqb_eq in E; subst; inversion H; left; reflexivity|right; auto].
+  - right; auto.
+Qed.
+
+Lemma class_sidict_ints : forall c q, get_class T c = Some q -> sidict_ints (qc_sidict q).
+Proof.
+  intros c q Hc k g Hg. unfold sidict_wf in Hsidict. apply andb_prop in Hsidict. destruct Hsidict as [H1 _].
+  apply is_nil_true in H1. pose proof (offenders_nil_in _ _ _ _ H1 c q Hc _ (glookup_in _ _ _ _ Hg)) as Hok.
+  simpl in Hok. destruct g; [eauto|discriminate].
+Qed.
+
+Theorem gen_Quantity_sisig_eq : forall c, gen_Quantity_sisig N M c = class_sig_of M c.
+Proof.
+  intros c. unfold gen_Quantity_sisig, class_sig_of, with_class, py_cls_sidict. cbv zeta.
+  rewrite py_class_get. fold T. destruct (get_class T c) as [q|] eqn:E; [|reflexivity]. cbn [bind].
+  change (py_range 0 9) with (py_range_from (Z.of_nat 0) (List.length si_names)).
+  rewrite (py_for_range_names _ (sisig_step (qc_sidict q)) _ si_names 0).
+  2:{ intros j u ret Hu. change (0 + j)%nat with j.
+      change ["rad"; "sr"; "kg"; "m"; "s"; "A"; "K"; "mol"; "cd"] with si_names.
+      rewrite (py_index_nth _ si_names j u Hu). cbn [bind].
+      unfold sisig_step, py_str_in, gmem, py_sidict_get, sig_at.
+      destruct (glookup u (qc_sidict q)) as [g|] eqn:G; [|reflexivity].
+      destruct (class_sidict_ints c q E _ _ G) as [v ->]. reflexivity. }
+  pose proof (sisig_fold (qc_sidict q) si_names [] [0;0;0;0;0;0;0;0;0]%Z eq_refl) as F.
+  cbn [app List.length] in F. rewrite F; [reflexivity|repeat constructor].
+Qed.
+
+Lemma class_sig_length : forall c s, class_sig_of M c = Val s -> List.length s = 9%nat.
+Proof.
+  intros c s. unfold class_sig_of, with_class. destruct (get_class (qm_classes M) c); [|discriminate].
+  intros H. inversion H. reflexivity.
+Qed.
+
+(* ---------- asSI, sisig ---------- *)
+Theorem gen_Quantity_asSI_eq : forall c (a : num) u,
+  gen_Quantity_asSI N M (GNamed c a u) = rmap conc (as_si N M c a).
+Proof.
+  intros. unfold gen_Quantity_asSI, as_si. cbv zeta. psimp. rewrite gen_SI_construct_plain. psimp.
+  rewrite gen_Quantity_sisig_eq. destruct (class_sig_of M c) as [s|e] eqn:E; [|reflexivity]. psimp.
+  rewrite siunit_text by (eapply class_sig_length; eauto). reflexivity.
+Qed.
+
+Lemma dyn_asSI_eq : forall v, dyn_asSI N M (conc v) =
+  match v with VNamed c a _ => rmap conc (as_si N M c a) | _ => Raise AttributeError end.
+Proof. intros [c a u|sg a|x|]; try reflexivity. apply gen_Quantity_asSI_eq. Qed.
+
+Lemma dyn_asSI_named : forall c (a : num) u, dyn_asSI N M (GNamed c a u) = rmap conc (as_si N M c a).
+Proof. intros. apply gen_Quantity_asSI_eq. Qed.
+
+Theorem gen_SI_sisig_eq : forall sg (a : num), gen_SI_sisig N M (conc (VSI sg a)) = Val sg.
+Proof. reflexivity. Qed.
+
+Lemma dyn_sisig_eq : forall v, dyn_sisig N M (conc v) =
+  match v with VNamed c _ _ => class_sig_of M c | VSI sg _ => Val sg | _ => Raise AttributeError end.
+Proof. intros [c a u|sg a|x|]; try reflexivity. apply gen_Quantity_sisig_eq. Qed.
+
+Lemma sig_zip_length : forall f a b, List.length a = 9%nat -> List.length b = 9%nat -> List.length (sig_zip f a b) = 9%nat.
+Proof.
+  intros f a b Ha Hb.
+  do 10 (destruct a as [|? a]; try discriminate). do 10 (destruct b as [|? b]; try discriminate). reflexivity.
+Qed.
+
+Lemma dyn_sisig_named : forall c (a : num) u, dyn_sisig N M (GNamed c a u) = class_sig_of M c.
+Proof. intros. apply gen_Quantity_sisig_eq. Qed.
+Lemma dyn_sisig_si : forall (a : num) sg u, dyn_sisig N M (GSI a sg u) = Val sg.
+Proof. reflexivity. Qed.
+
+(* ---------- SI.__mul__ / SI.__truediv__ ---------- *)
+Theorem gen_SI___mul___eq : forall sg (a : num) other, List.length sg = 9%nat -> val_ok other ->
+  gen_SI___mul__ N M (conc (VSI sg a)) (conc other) = rmap conc (si_mul N M sg a other).
+Proof.
+  intros sg a other Hs Ho. unfold gen_SI___mul__, gen_SI_sisig, si_mul. cbv zeta.
+  destruct other as [c2 b u2|sg2 b|x|]; psimp.
+  - rewrite gen_SI_construct_plain, dyn_sisig_named. psimp.
+    destruct (class_sig_of M c2) as [s2|e] eqn:E; [|reflexivity]. psimp.
+    rewrite py_map2_zip. rewrite siunit_text by (apply sig_zip_length; [assumption|eapply class_sig_length; eauto]).
+    reflexivity.
+  - rewrite gen_SI_construct_plain, dyn_sisig_si. psimp. rewrite py_map2_zip.
+    rewrite siunit_text by (apply sig_zip_length; assumption). reflexivity.
+  - change (GSI a sg (si_unit_text sg)) with (conc (VSI sg a)). rewrite gen_SI__val_eq. reflexivity.
+  - reflexivity.
+Qed.
+
+Theorem gen_SI___truediv___eq : forall sg (a : num) other, List.length sg = 9%nat -> val_ok other ->
+  gen_SI___truediv__ N M (conc (VSI sg a)) (conc other) = rmap conc (si_div N M sg a other).
+Proof.
+  intros sg a other Hs Ho. unfold gen_SI___truediv__, gen_SI_sisig, si_div. cbv zeta.
+  destruct other as [c2 b u2|sg2 b|x|]; psimp.
+  - destruct Ho as [q2 Hq2]. assert (E : class_sig_of M c2 = Val (cls_sig q2))
+      by (unfold class_sig_of, with_class; fold T; rewrite Hq2; reflexivity).
+    rewrite E, py_truediv_checked. destruct (checked_div N a b) as [y|e]; [|reflexivity]. psimp.
+    rewrite gen_SI_construct_plain, dyn_sisig_named, E. psimp.
+    rewrite py_map2_zip. rewrite siunit_text by (apply sig_zip_length; [assumption|reflexivity]).
+    reflexivity.
+  - rewrite py_truediv_checked. destruct (checked_div N a b) as [y|e]; [|reflexivity]. psimp.
+    rewrite gen_SI_construct_plain, dyn_sisig_si. psimp. rewrite py_map2_zip.
+    rewrite siunit_text by (apply sig_zip_length; assumption). reflexivity.
+  - rewrite py_truediv_checked. destruct (checked_div N a x) as [y|e]; [|reflexivity]. psimp.
+    change (GSI a sg (si_unit_text sg)) with (conc (VSI sg a)). rewrite gen_SI__val_eq. reflexivity.
+  - reflexivity.
+Qed.
+
+(* ---------- Quantity.__mul__ / Quantity.__truediv__ ---------- *)
+Lemma py_cls_mul_get : forall c q, get_class T c = Some q -> py_cls_mul M c = Val (qc_mul q).
+Proof. intros c q H. unfold py_cls_mul. rewrite py_class_get. fold T. rewrite H. reflexivity. Qed.
+Lemma py_cls_div_get : forall c q, get_class T c = Some q -> py_cls_div M c = Val (qc_div q).
+Proof. intros c q H. unfold py_cls_div. rewrite py_class_get. fold T. rewrite H. reflexivity. Qed.
+
+Lemma class_sig_get : forall c q, get_class T c = Some q -> class_sig_of M c = Val (cls_sig q).
+Proof. intros c q H. unfold class_sig_of, with_class. fold T. rewrite H. reflexivity. Qed.
+
+(* newclass(x, newclass._baseunit) *)
+Lemma construct_base : forall r (x : num),
+  (do t13_ <- (do t11_ <- py_cls_baseunit M r; Val (Some t11_));
+   gen_Quantity_construct N M r (GNum x) t13_) = rmap conc (mk_base N M r x).
+Proof.
+  intros. unfold mk_base, with_class, py_cls_baseunit, base_unit. rewrite py_class_get. fold T.
+  destruct (get_class T r) as [q|]; [|reflexivity]. psimp. destruct (qc_base q) as [b|]; [|reflexivity]. psimp.
+  change (GNum x) with (conc (VNum x)). apply gen_Quantity_construct_eq. reflexivity.
+Qed.
+
+Theorem gen_Quantity___mul___eq : forall c q (a : num) u other, get_class T c = Some q -> val_ok other ->
+  gen_Quantity___mul__ N M (GNamed c a u) (conc other) = rmap conc (q_mul N M c a u other).
+Proof.
+  intros c q a u other Hc Ho. unfold gen_Quantity___mul__, q_mul, with_class. cbv zeta. fold T. rewrite Hc.
+  destruct other as [c2 b u2|sg2 b|x|]; psimp; rewrite ?(py_cls_mul_get c q Hc); psimp.
+  - unfold py_clsdict_get, py_type_in. destruct (clookup c2 (qc_mul q)) as [[r|bad]|] eqn:L; psimp.
+    + apply construct_base.
+    + reflexivity.
+    + rewrite gen_Quantity_asSI_eq. unfold as_si. rewrite (class_sig_get c q Hc). psimp.
+      rewrite dyn_asSI_named. unfold as_si, si_mul.
+      destruct (class_sig_of M c2) as [s2|e] eqn:E; [|reflexivity]. psimp.
+      change (GSI a (cls_sig q) (si_unit_text (cls_sig q))) with (conc (VSI (cls_sig q) a)).
+      change (GSI b s2 (si_unit_text s2)) with (conc (VSI s2 b)).
+      rewrite gen_SI___mul___eq; [reflexivity|reflexivity|eapply class_sig_length; eauto].
+  - rewrite gen_Quantity_asSI_eq. unfold as_si. rewrite (class_sig_get c q Hc). psimp.
+    change (GSI a (cls_sig q) (si_unit_text (cls_sig q))) with (conc (VSI (cls_sig q) a)).
+    change (GSI b sg2 (si_unit_text sg2)) with (conc (VSI sg2 b)).
+    apply gen_SI___mul___eq; [reflexivity|assumption].
+  - apply gen_Quantity__val_eq.
+  - change (GNamed c a u) with (conc (VNamed c a u)). rewrite dyn_str_effect_eq.
+    change GStrObj with (conc (@VStr N)). rewrite dyn_str_effect_eq.
+    rewrite <- (refuse_effect (VNamed c a u)) by reflexivity.
+    destruct (str_effect (VNamed c a u)); reflexivity.
+Qed.
+
+Theorem gen_Quantity___truediv___eq : forall c q (a : num) u other, get_class T c = Some q -> val_ok other ->
+  gen_Quantity___truediv__ N M (GNamed c a u) (conc other) = rmap conc (q_div N M c a u other).
+Proof.
+  intros c q a u other Hc Ho. unfold gen_Quantity___truediv__, q_div, with_class. cbv zeta. fold T. rewrite Hc.
+  destruct other as [c2 b u2|sg2 b|x|]; psimp; rewrite ?(py_cls_div_get c q Hc); psimp.
+  - unfold py_clsdict_get, py_type_in. destruct (clookup c2 (qc_div q)) as [[r|bad]|] eqn:L; psimp.
+    + rewrite py_truediv_checked. destruct (checked_div N a b) as [y|e]; [|reflexivity]. psimp. apply construct_base.
+    + reflexivity.
+    + rewrite gen_Quantity_asSI_eq. unfold as_si. rewrite (class_sig_get c q Hc). psimp.
+      rewrite dyn_asSI_named. unfold as_si, si_div.
+      destruct (class_sig_of M c2) as [s2|e] eqn:E; [|reflexivity]. psimp.
+      change (GSI a (cls_sig q) (si_unit_text (cls_sig q))) with (conc (VSI (cls_sig q) a)).
+      change (GSI b s2 (si_unit_text s2)) with (conc (VSI s2 b)).
+      rewrite gen_SI___truediv___eq; [reflexivity|reflexivity|eapply class_sig_length; eauto].
+  - rewrite gen_Quantity_asSI_eq. unfold as_si. rewrite (class_sig_get c q Hc). psimp.
+    change (GSI a (cls_sig q) (si_unit_text (cls_sig q))) with (conc (VSI (cls_sig q) a)).
+    change (GSI b sg2 (si_unit_text sg2)) with (conc (VSI sg2 b)).
+    apply gen_SI___truediv___eq; [reflexivity|assumption].
+  - rewrite py_truediv_checked. destruct (checked_div N a x) as [y|e]; [|reflexivity]. psimp. apply gen_Quantity__val_eq.
+  - change (GNamed c a u) with (conc (VNamed c a u)). rewrite dyn_str_effect_eq.
+    change GStrObj with (conc (@VStr N)). rewrite dyn_str_effect_eq.
+    rewrite <- (refuse_effect (VNamed c a u)) by reflexivity.
+    destruct (str_effect (VNamed c a u)); reflexivity.
+Qed.
+
+Theorem gen_Quantity___rmul___eq : forall c q (a : num) u other, get_class T c = Some q -> val_ok other ->
+  gen_Quantity___rmul__ N M (GNamed c a u) (conc other) = rmap conc (q_mul N M c a u other).
+Proof. intros. unfold gen_Quantity___rmul__. cbv zeta. eapply gen_Quantity___mul___eq; eauto. Qed.
+
+Theorem gen_SI___rmul___eq : forall sg (a : num) other, List.length sg = 9%nat -> val_ok other ->
+  gen_SI___rmul__ N M (conc (VSI sg a)) (conc other) = rmap conc (si_mul N M sg a other).
+Proof. intros. unfold gen_SI___rmul__. cbv zeta. apply gen_SI___mul___eq; assumption. Qed.
+
+(* other / self with a left operand that is not a quantity: Dimensionless(other) / self for a number, refused otherwise *)
+Definition rdiv_model (y x : pyval) : result pyval :=
+  match x with
+  | VNum v => match dimensionless_of N M v with
+              | Val (VNamed dc da du) => q_div N M dc da du y
+              | Val _ => Raise Unmodelled
+              | Raise e => Raise e
+              end
+  | _ => refuse_after_formatting N M y
+  end.
+
+Lemma mk_none_class : forall c x r, mk N M c (VNum x) None = Val r -> exists q, get_class T c = Some q.
+Proof. intros c x r. unfold mk, with_class. fold T. destruct (get_class T c); [eauto|discriminate]. Qed.
+
+Lemma rdiv_number : forall (y : pyval) (v : num), val_ok y ->
+  (do t2_ <- (do c1_ <- py_global_Dimensionless M; gen_Quantity_construct N M c1_ (GNum v) None);
+   gen_Quantity___truediv__ N M t2_ (conc y)) = rmap conc (rdiv_model y (VNum v)).
+Proof.
+  intros y v Hy. unfold rdiv_model, dimensionless_of, py_global_Dimensionless.
+  destruct (qm_dimensionless M) as [d|]; [|reflexivity]. psimp.
+  change (GNum v) with (conc (VNum v)). rewrite gen_Quantity_construct_eq by reflexivity.
+  destruct (mk N M d (VNum v) None) as [r|e] eqn:E; [|reflexivity].
+  destruct (mk_num_none_shape _ _ _ E) as (x & b & ->). destruct (mk_none_class _ _ _ E) as [qd Hd]. psimp.
+  eapply gen_Quantity___truediv___eq; eauto.
+Qed.
+
+Theorem gen_Quantity___rtruediv___eq : forall c q (a : num) u other, get_class T c = Some q -> is_quantity N other = false ->
+  gen_Quantity___rtruediv__ N M (GNamed c a u) (conc other) = rmap conc (rdiv_model (VNamed c a u) other).
+Proof.
+  intros c q a u other Hc Ho. unfold gen_Quantity___rtruediv__. cbv zeta.
+  destruct other as [c2 b u2|sg2 b|x|]; try discriminate; psimp.
+  - change (GNamed c a u) with (conc (VNamed c a u)). apply rdiv_number. simpl. eauto.
+  - change (GNamed c a u) with (conc (VNamed c a u)). rewrite dyn_str_effect_eq.
+    change GStrObj with (conc (@VStr N)). rewrite dyn_str_effect_eq. cbn [str_effect bind rdiv_model].
+    apply (refuse_effect (VNamed c a u)). reflexivity.
+Qed.
+
+Theorem gen_SI___rtruediv___eq : forall sg (a : num) other, List.length sg = 9%nat -> is_quantity N other = false ->
+  gen_SI___rtruediv__ N M (conc (VSI sg a)) (conc other) = rmap conc (rdiv_model (VSI sg a) other).
+Proof.
+  intros sg a other Hs Ho. unfold gen_SI___rtruediv__. cbv zeta.
+  destruct other as [c2 b u2|sg2 b|x|]; try discriminate; psimp.
+  - change (GSI a sg (si_unit_text sg)) with (conc (VSI sg a)). apply rdiv_number. exact Hs.
+  - reflexivity.
+Qed.
+
+(* ---------- + and - ---------- *)
+Theorem gen_Quantity___add___eq : forall c (a : num) u other,
+  gen_Quantity___add__ N M (GNamed c a u) (conc other) = rmap conc (q_addsub N M (fadd N) c a u other).
+Proof.
+  intros. unfold gen_Quantity___add__, q_addsub. cbv zeta.
+  destruct other as [c2 b u2|sg2 b|x|]; psimp; try reflexivity.
+  destruct (Nat.eqb c c2); psimp; [apply gen_Quantity__val_eq|reflexivity].
+Qed.
+
+Theorem gen_Quantity___sub___eq : forall c (a : num) u other,
+  gen_Quantity___sub__ N M (GNamed c a u) (conc other) = rmap conc (q_addsub N M (fsub N) c a u other).
+Proof.
+  intros. unfold gen_Quantity___sub__, q_addsub. cbv zeta.
+  destruct other as [c2 b u2|sg2 b|x|]; psimp; try reflexivity.
+  destruct (Nat.eqb c c2); psimp; [apply gen_Quantity__val_eq|reflexivity].
+Qed.
+
+Theorem gen_Quantity___radd___eq : forall c (a : num) u other,
+  gen_Quantity___radd__ N M (GNamed c a u) (conc other) = rmap conc (q_addsub N M (fadd N) c a u other).
+Proof. intros. unfold gen_Quantity___radd__. cbv zeta. apply gen_Quantity___add___eq. Qed.
+
+(* the signature guard of SI.__add__ / SI.__sub__ is part of the statement: [si_addsub] refuses another signature *)
+Theorem gen_SI___add___eq : forall sg (a : num) other,
+  gen_SI___add__ N M (conc (VSI sg a)) (conc other) = rmap conc (si_addsub N (fadd N) sg a other).
+Proof.
+  intros. unfold gen_SI___add__, si_addsub. cbv zeta.
+  destruct other as [c2 b u2|sg2 b|x|]; psimp; try reflexivity.
+  rewrite py_list_eqb_sig. destruct (sig_eqb sg sg2); psimp; [|reflexivity].
+  change (GSI a sg (si_unit_text sg)) with (conc (VSI sg a)). rewrite gen_SI__val_eq. reflexivity.
+Qed.
+
+Theorem gen_SI___sub___eq : forall sg (a : num) other,
+  gen_SI___sub__ N M (conc (VSI sg a)) (conc other) = rmap conc (si_addsub N (fsub N) sg a other).
+Proof.
+  intros. unfold gen_SI___sub__, si_addsub. cbv zeta.
+  destruct other as [c2 b u2|sg2 b|x|]; psimp; try reflexivity.
+  rewrite py_list_eqb_sig. destruct (sig_eqb sg sg2); psimp; [|reflexivity].
+  change (GSI a sg (si_unit_text sg)) with (conc (VSI sg a)). rewrite gen_SI__val_eq. reflexivity.
+Qed.
+
+Theorem gen_SI___radd___eq : forall sg (a : num) other,
+  gen_SI___radd__ N M (conc (VSI sg a)) (conc other) = rmap conc (si_addsub N (fadd N) sg a other).
+Proof. intros. unfold gen_SI___radd__. cbv zeta. apply gen_SI___add___eq. Qed.
+
+(* ---------- unary operators ---------- *)
+Theorem gen_Quantity___neg___eq : forall c (a : num) u,
+  gen_Quantity___neg__ N M (GNamed c a u) = rmap conc (q_val N M c (fneg N a) u).
+Proof. intros. unfold gen_Quantity___neg__. cbv zeta. psimp. apply gen_Quantity__val_eq. Qed.
+
+Theorem gen_Quantity___abs___eq : forall c (a : num) u,
+  gen_Quantity___abs__ N M (GNamed c a u) = rmap conc (q_val N M c (fabs N a) u).
+Proof. intros. unfold gen_Quantity___abs__. cbv zeta. psimp. apply gen_Quantity__val_eq. Qed.
+
+Theorem gen_Quantity___pos___eq : forall v : pyval, gen_Quantity___pos__ N M (conc v) = Val (conc v).
+Proof. reflexivity. Qed.
+
+Theorem gen_SI___neg___eq : forall sg (a : num),
+  gen_SI___neg__ N M (conc (VSI sg a)) = Val (conc (VSI sg (fneg N a))).
+Proof. intros. unfold gen_SI___neg__. cbv zeta. psimp. apply (gen_SI__val_eq sg a). Qed.
+
+Theorem gen_SI___abs___eq : forall sg (a : num),
+  gen_SI___abs__ N M (conc (VSI sg a)) = Val (conc (VSI sg (fabs N a))).
+Proof. intros. unfold gen_SI___abs__. cbv zeta. psimp. apply (gen_SI__val_eq sg a). Qed.
+
+Theorem gen_SI___pos___eq : forall v : pyval, gen_SI___pos__ N M (conc v) = Val (conc v).
+Proof. reflexivity. Qed.
+
+(* other.__neg__() on an object of any class *)
+Lemma dyn___neg___eq : forall v, dyn___neg__ N M (conc v) =
+  match v with
+  | VNamed c a u => rmap conc (q_val N M c (fneg N a) u)
+  | VSI sg a => Val (conc (VSI sg (fneg N a)))
+  | VNum x => Val (conc (VNum (fneg N x)))
+  | VStr => Raise AttributeError
+  end.
+Proof.
+  intros [c a u|sg a|x|]; try reflexivity. apply gen_Quantity___neg___eq.
+Qed.
+
+(* other - self with a left operand that is not a quantity *)
+Theorem gen_Quantity___rsub___eq : forall c (a : num) u other, is_quantity N other = false ->
+  gen_Quantity___rsub__ N M (GNamed c a u) (conc other) =
+  match other with
+  | VNum v => rmap conc (q_addsub N M (fadd N) c a u (VNum (fneg N v)))
+  | _ => Raise AttributeError
+  end.
+Proof.
+  intros c a u other Ho. unfold gen_Quantity___rsub__. cbv zeta. rewrite dyn___neg___eq.
+  destruct other as [c2 b u2|sg2 b|x|]; try discriminate; psimp; [|reflexivity].
+  change (GNum (fneg N x)) with (conc (VNum (fneg N x))). apply gen_Quantity___add___eq.
+Qed.
+
+Theorem gen_SI___rsub___eq : forall sg (a : num) other, is_quantity N other = false ->
+  gen_SI___rsub__ N M (conc (VSI sg a)) (conc other) =
+  match other with
+  | VNum v => rmap conc (si_addsub N (fadd N) sg a (VNum (fneg N v)))
+  | _ => Raise AttributeError
+  end.
+Proof.
+  intros sg a other Ho. unfold gen_SI___rsub__. cbv zeta. rewrite dyn___neg___eq.
+  destruct other as [c2 b u2|sg2 b|x|]; try discriminate; psimp; [|reflexivity].
+  change (GNum (fneg N x)) with (conc (VNum (fneg N x))). apply gen_SI___add___eq.
+Qed.
+
+(* ---------- comparisons ---------- *)
+Ltac q_cmp_proof :=
+  intros c a u other; cbv zeta;
+  destruct other as [c2 b u2|sg2 b|x|]; psimp; try reflexivity;
+  destruct (Nat.eqb c c2); reflexivity.
+
+Theorem gen_Quantity___eq___eq : forall c (a : num) (u : string) other,
+  gen_Quantity___eq__ N M (GNamed c a u) (conc other) = q_cmp N CEq c a other.
+Proof. unfold gen_Quantity___eq__, q_cmp. q_cmp_proof. Qed.
+Theorem gen_Quantity___ne___eq : forall c (a : num) (u : string) other,
+  gen_Quantity___ne__ N M (GNamed c a u) (conc other) = q_cmp N CNe c a other.
+Proof. unfold gen_Quantity___ne__, q_cmp. q_cmp_proof. Qed.
+Theorem gen_Quantity___lt___eq : forall c (a : num) (u : string) other,
+  gen_Quantity___lt__ N M (GNamed c a u) (conc other) = q_cmp N CLt c a other.
+Proof. unfold gen_Quantity___lt__, q_cmp. q_cmp_proof. Qed.
+Theorem gen_Quantity___le___eq : forall c (a : num) (u : string) other,
+  gen_Quantity___le__ N M (GNamed c a u) (conc other) = q_cmp N CLe c a other.
+Proof. unfold gen_Quantity___le__, q_cmp. q_cmp_proof. Qed.
+Theorem gen_Quantity___gt___eq : forall c (a : num) (u : string) other,
+  gen_Quantity___gt__ N M (GNamed c a u) (conc other) = q_cmp N CGt c a other.
+Proof. unfold gen_Quantity___gt__, q_cmp. q_cmp_proof. Qed.
+Theorem gen_Quantity___ge___eq : forall c (a : num) (u : string) other,
+  gen_Quantity___ge__ N M (GNamed c a u) (conc other) = q_cmp N CGe c a other.
+Proof. unfold gen_Quantity___ge__, q_cmp. q_cmp_proof. Qed.
+
+Ltac si_cmp_proof :=
+  intros sg a other; cbv zeta;
+  destruct other as [c2 b u2|sg2 b|x|]; psimp; try reflexivity;
+  rewrite py_list_eqb_sig; destruct (sig_eqb sg sg2); reflexivity.
+
+Theorem gen_SI___eq___eq : forall sg (a : num) other,
+  gen_SI___eq__ N M (conc (VSI sg a)) (conc other) = si_cmp N CEq sg a other.
+Proof. unfold gen_SI___eq__, si_cmp. si_cmp_proof. Qed.
+Theorem gen_SI___ne___eq : forall sg (a : num) other,
+  gen_SI___ne__ N M (conc (VSI sg a)) (conc other) = si_cmp N CNe sg a other.
+Proof. unfold gen_SI___ne__, si_cmp. si_cmp_proof. Qed.
+Theorem gen_SI___lt___eq : forall sg (a : num) other,
+  gen_SI___lt__ N M (conc (VSI sg a)) (conc other) = si_cmp N CLt sg a other.
+Proof. unfold gen_SI___lt__, si_cmp. si_cmp_proof. Qed.
+Theorem gen_SI___le___eq : forall sg (a : num) other,
+  gen_SI___le__ N M (conc (VSI sg a)) (conc other) = si_cmp N CLe sg a other.
+Proof. unfold gen_SI___le__, si_cmp. si_cmp_proof. Qed.
+Theorem gen_SI___gt___eq : forall sg (a : num) other,
+  gen_SI___gt__ N M (conc (VSI sg a)) (conc other) = si_cmp N CGt sg a other.
+Proof. unfold gen_SI___gt__, si_cmp. si_cmp_proof. Qed.
+Theorem gen_SI___ge___eq : forall sg (a : num) other,
+  gen_SI___ge__ N M (conc (VSI sg a)) (conc other) = si_cmp N CGe sg a other.
+Proof. unfold gen_SI___ge__, si_cmp. si_cmp_proof. Qed.
+
+(* ---------- as_unit, getters, as_quantity ---------- *)
+Theorem gen_Quantity_as_unit_eq : forall c (a : num) u newunit,
+  gen_Quantity_as_unit N M (GNamed c a u) newunit = rmap conc (as_unit N M (VNamed c a u) newunit).
+Proof.
+  intros. unfold gen_Quantity_as_unit, as_unit, with_class, py_cls_units, gen_Quantity_si. cbv zeta. psimp.
+  rewrite py_class_get. fold T. destruct (get_class T c) as [q|]; [|reflexivity]. psimp.
+  unfold py_str_in. destruct (gmem newunit (qc_units q)); psimp; [|reflexivity].
+  change (GNum a) with (conc (VNum a)). rewrite gen_Quantity_construct_eq by reflexivity. unfold q_val.
+  destruct (mk N M c (VNum a) None) as [r|e] eqn:E; [|reflexivity].
+  destruct (mk_num_none_shape _ _ _ E) as (y & b & ->). reflexivity.
+Qed.
+
+Theorem gen_Quantity_si_eq : forall c (a : num) u, gen_Quantity_si N M (GNamed c a u) = Val a.
+Proof. reflexivity. Qed.
+Theorem gen_Quantity_unit_eq : forall c (a : num) u, gen_Quantity_unit N M (GNamed c a u) = Val u.
+Proof. reflexivity. Qed.
+Theorem gen_SI_si_eq : forall sg (a : num), gen_SI_si N M (conc (VSI sg a)) = Val a.
+Proof. reflexivity. Qed.
+Theorem gen_SI_unit_eq : forall sg (a : num), gen_SI_unit N M (conc (VSI sg a)) = Val (si_unit_text sg).
+Proof. reflexivity. Qed.
+
+(* the class handed to as_quantity: a quantity class of the module, or something else *)
+Definition tconc (t : option nat) : pytype := match t with Some c => TNamed c | None => TOther end.
+
+Theorem gen_SI_as_quantity_eq : forall sg (a : num) target,
+  gen_SI_as_quantity N M (conc (VSI sg a)) (tconc target) = rmap conc (as_quantity N M (VSI sg a) target).
+Proof.
+  intros sg a [c|]; [|reflexivity]. unfold gen_SI_as_quantity, as_quantity, gen_SI_sisig, tconc. cbv zeta. psimp.
+  rewrite gen_Quantity_sisig_eq. destruct (class_sig_of M c) as [s|e]; [|reflexivity]. psimp.
+  rewrite py_list_eqb_sig. destruct (sig_eqb s sg); psimp; [|reflexivity]. apply construct_base.
+Qed.
+
+(* ---------- Quantity.siunit / sidict_to_unit ---------- *)
+Lemma names_loop : forall sel h t (f : string -> Z) names st,
+  py_for names (fun u st => Val (pstep h t sel st u (f u))) st
+  = Val (fold_left (fun a p => pstep h t sel a (fst p) (snd p)) (combine names (map f names)) st).
+Proof. induction names as [|u names IH]; intros st; simpl; [reflexivity|apply IH]. Qed.
+
+Lemma sig_at_missing : forall d u, glookup u d = None -> sig_at d u = 0%Z.
+Proof. intros d u H. unfold sig_at. rewrite H. reflexivity. Qed.
+
+Theorem gen_Quantity_sidict_to_unit_eq : forall d dv h t, sidict_ints d ->
+  gen_Quantity_sidict_to_unit N M d dv h t = Val (siunit_q (map (sig_at d) si_names) dv h t).
+Proof.
+  intros d dv h t Hd. unfold gen_Quantity_sidict_to_unit, siunit_q. cbv zeta.
+  change ["rad"; "sr"; "kg"; "m"; "s"; "A"; "K"; "mol"; "cd"] with si_names.
+  rewrite (py_for_ext _ _ _ (fun u st => Val (pstep h t (sel_num dv) st u (sig_at d u)))).
+  2:{ intros u st. unfold py_str_in, gmem, py_sidict_get, pstep, sel_num, seg.
+      destruct (glookup u d) as [g|] eqn:G.
+      - destruct (Hd _ _ G) as [v Hv]. subst g. assert (S : sig_at d u = v) by (unfold sig_at; rewrite G; reflexivity).
+        rewrite S. cbn [bind].
+        destruct ((0 <? v)%Z || (v <? 0)%Z && negb dv) eqn:C; [|reflexivity].
+        rewrite (num_shown dv v C), py_len_pos, py_str_of_int_zstr.
+        destruct (String.eqb st ""), (v =? 1)%Z; cbn [bind negb]; rewrite ?sapp_assoc; reflexivity.
+      - rewrite (sig_at_missing d u G). reflexivity. }
+  rewrite names_loop, (pass_text h t (sel_num dv) si_names (map (sig_at d) si_names) si_names_nonempty). cbn [bind].
+  set (s := join_items h t (pass_items (sel_num dv) si_names (map (sig_at d) si_names))).
+  assert (Hfin : forall tt : string,
+    (do s_ <- (if (py_len s =? 0)%Z then Val "1" else Val s);
+     if (0 <? py_len tt)%Z then Val (s_ ++ "/" ++ tt)%string else Val s_)
+    = Val (let s0 := if String.eqb s "" then "1" else s in if String.eqb tt "" then s0 else (s0 ++ "/" ++ tt)%string)).
+  { intros tt. rewrite py_len_zero. destruct (String.eqb s ""); cbn [bind]; destruct tt; reflexivity. }
+  destruct dv.
+  - rewrite (py_for_ext _ _ _ (fun u st => Val (pstep h t sel_den st u (sig_at d u)))).
+    2:{ intros u st. unfold py_str_in, gmem, py_sidict_get, pstep, sel_den, seg.
+        destruct (glookup u d) as [g|] eqn:G.
+        - destruct (Hd _ _ G) as [v Hv]. subst g. assert (S : sig_at d u = v) by (unfold sig_at; rewrite G; reflexivity).
+          rewrite S. cbn [bind].
+          destruct (v <? 0)%Z eqn:C; [|reflexivity].
+          rewrite (den_shown v C), py_len_pos, py_str_of_int_zstr.
+          destruct (String.eqb st ""), (- v =? 1)%Z; cbn [bind negb]; rewrite ?sapp_assoc; reflexivity.
+        - rewrite (sig_at_missing d u G). reflexivity. }
+    rewrite names_loop, (pass_text h t sel_den si_names (map (sig_at d) si_names) si_names_nonempty). cbn [bind].
+    apply Hfin.
+  - cbn [bind]. apply (Hfin "").
+Qed.
+
+Theorem gen_Quantity_siunit_eq : forall c dv h t,
+  gen_Quantity_siunit N M c dv h t = rmap (fun s => siunit_q s dv h t) (class_sig_of M c).
+Proof.
+  intros. unfold gen_Quantity_siunit, py_cls_sidict, class_sig_of, with_class. cbv zeta.
+  rewrite py_class_get. fold T. destruct (get_class T c) as [q|] eqn:E; [|reflexivity]. cbn [bind rmap].
+  apply gen_Quantity_sidict_to_unit_eq. eapply class_sidict_ints; eauto.
+Qed.
+
+(* ====================================================================== *)
+(* SI.str_to_sisig: the while loop is the two sweeps of [scan]              *)
+(* ====================================================================== *)
+Local Open Scope string_scope.
+Definition pstate := (string * list Z * Z * Z)%type.
+Definition pfinish (st : pstate) : result (list Z) :=
+  let '(s_, ret_, i_, div_) := st in if negb (py_len s_ =? 0)%Z then Raise ValueError else Val ret_.
+
+(* test and body of the generated loop, taken out of the generated definition itself *)
+Definition parser_parts :
+  { cb : (pstate -> bool) * (pstate -> result pstate) |
+    forall s, gen_SI_str_to_sisig N M s = do st <- py_while 64 (fst cb) (snd cb) (s, sig0, 0%Z, 1%Z); pfinish st }.
+Proof. eexists (_, _). intros s. unfold gen_SI_str_to_sisig. cbv zeta. cbn [fst snd]. reflexivity. Defined.
+Definition ptest : pstate -> bool := fst (proj1_sig parser_parts).
+Definition pbody : pstate -> result pstate := snd (proj1_sig parser_parts).
+
+Lemma gen_parser_unfold : forall s,
+  gen_SI_str_to_sisig N M s = do st <- py_while 64 ptest pbody (s, sig0, 0%Z, 1%Z); pfinish st.
+Proof. exact (proj2_sig parser_parts). Qed.
+
+Lemma ptest_eq : forall s ret i d, ptest (s, ret, i, d) = (i <? 9)%Z.
+Proof. reflexivity. Qed.
+
+(* what one iteration does at position |pre| (unit name u, entry r), in the words of the model *)
+Definition slash_m (divs : Z) (pre ret' : list Z) (s' : string) (rr : Z) : result pstate :=
+  if prefix "/" s' then (if (divs =? -1)%Z then Raise ValueError else Val (py_str_drop 1 s', (pre ++ rr :: ret')%list, 0%Z, (-1)%Z))
+  else Val (s', (pre ++ rr :: ret')%list, Z.of_nat (S (List.length pre)), divs).
+
+Definition step_m (u : string) (pre : list Z) (r : Z) (ret' : list Z) (s : string) (divs : Z) : result pstate :=
+  if prefix u s then
+    if String.eqb u "m" && prefix "mol" s then Val (s, (pre ++ r :: ret')%list, Z.of_nat (S (List.length pre)), divs)
+    else match parse_exp divs (py_str_drop (String.length u) s) with
+         | None => Raise ValueError
+         | Some (e, s2) => if negb (r =? 0)%Z then Raise ValueError
+                           else slash_m divs pre ret' (match s2 with String "."%char q => q | _ => s2 end) e
+         end
+  else slash_m divs pre ret' s r.
+
+Lemma strip_dot : forall s2 : string,
+  match s2 with String "."%char q => q | _ => s2 end = if String.eqb (py_str_take 1 s2) "." then py_str_drop 1 s2 else s2.
+Proof.
+  intros s2. rewrite match_dot. change "." with (String "."%char ""). rewrite eqb_take1. destruct s2; reflexivity.
+Qed.
+
+Lemma digit_int_contra : forall s e, py_match_digit (py_str_take 1 s) = true -> py_int_of_str (py_str_take 1 s) = Raise e -> False.
+Proof. intros [|c r] e; simpl; [discriminate|]. intros ->. discriminate. Qed.
+
+Lemma body_step : forall prenames u rest pre r ret' s divs,
+  (prenames ++ u :: rest)%list = si_names -> List.length prenames = List.length pre ->
+  pbody (s, (pre ++ r :: ret')%list, Z.of_nat (List.length pre), divs) = step_m u pre r ret' s divs.
+Proof.
+  intros prenames u rest pre r ret' s divs Hn Hl.
+  unfold pbody, parser_parts. cbn [proj1_sig snd].
+  change ["rad"; "sr"; "kg"; "m"; "s"; "A"; "K"; "mol"; "cd"] with si_names. rewrite <- Hn.
+  assert (IX : py_index (prenames ++ u :: rest)%list (Z.of_nat (List.length pre)) = Val u)
+    by (rewrite <- Hl; apply py_index_app).
+  rewrite IX. cbn [bind].
+  unfold step_m, slash_m, py_startswith. rewrite parse_exp_tests. unfold parse_exp_t.
+  repeat (cbn [bind fst snd]; rewrite ?strip_dot, ?py_index_app, ?py_list_set_app;
+          repeat match goal with H : ?l = _ |- context [?l] => rewrite H end; cbn [bind fst snd];
+          match goal with
+          | |- context [match py_int_of_str ?x with _ => _ end] => destruct (py_int_of_str x) eqn:?
+          | |- context [if ?c then _ else _] => destruct c eqn:?
+          end); cbn [bind].
+  all: try reflexivity.
+  all: try (rewrite Nat2Z.inj_succ; unfold Z.succ; reflexivity).
+  all: exfalso; eapply digit_int_contra; eassumption.
+Qed.
+
+Definition W (fuel : nat) (st : pstate) : result pstate := py_while fuel ptest pbody st.
+
+Lemma W_step : forall prenames u rest pre r ret' s divs k,
+  (prenames ++ u :: rest)%list = si_names -> List.length prenames = List.length pre ->
+  W (S k) (s, (pre ++ r :: ret')%list, Z.of_nat (List.length pre), divs)
+  = do st' <- step_m u pre r ret' s divs; W k st'.
+Proof.
+  intros prenames u rest pre r ret' s divs k Hn Hl. unfold W. cbn [py_while]. rewrite ptest_eq.
+  assert (Hlt : (Z.of_nat (List.length pre) <? 9)%Z = true).
+  { apply Z.ltb_lt. rewrite <- Hl. apply (f_equal (@List.length string)) in Hn. rewrite app_length in Hn. simpl in Hn. lia. }
+  rewrite Hlt, (body_step prenames u rest pre r ret' s divs Hn Hl). reflexivity.
+Qed.
+
+Lemma W_done : forall s ret divs k, W (S k) (s, ret, 9%Z, divs) = Val (s, ret, 9%Z, divs).
+Proof. reflexivity. Qed.
+
+Lemma scan_neg_no_slash : forall us ret s s' l, scan us ret s (-1) <> ScanSlash s' l.
+Proof.
+  induction us as [|u us IH]; intros ret s s' l; [destruct ret; discriminate|].
+  destruct ret as [|r ret]; [discriminate|]. cbn [scan].
+  assert (C : forall x t, cons_res x (scan us ret t (-1)) <> ScanSlash s' l).
+  { intros x t. destruct (scan us ret t (-1)) eqn:E; cbn; try discriminate. exfalso. eapply IH; eauto. }
+  change ((-1 =? -1)%Z) with true. cbv iota.
+  destruct (prefix u s).
+  - destruct (String.eqb u "m" && prefix "mol" s); [apply C|].
+    destruct (parse_exp (-1) (sdrop (String.length u) s)) as [[e s2]|]; [|discriminate].
+    destruct (negb (r =? 0)%Z); [discriminate|]. cbv zeta.
+    match goal with |- (if ?c then _ else _) <> _ => destruct c end; [discriminate|apply C].
+  - destruct (prefix "/" s); [discriminate|apply C].
+Qed.
+
+Lemma scan_length : forall us ret s divs,
+  List.length ret = List.length us ->
+  match scan us ret s divs with
+  | ScanDone _ l | ScanSlash _ l => List.length l = List.length ret
+  | ScanErr => True
+  end.
+Proof.
+  induction us as [|u us IH]; intros ret s divs Hl.
+  - destruct ret; [reflexivity|discriminate].
+  - destruct ret as [|r ret]; [discriminate|]. cbn [scan]. simpl in Hl.
+    assert (C : forall x t, match cons_res x (scan us ret t divs) with
+                            | ScanDone _ l | ScanSlash _ l => List.length l = List.length (r :: ret)
+                            | ScanErr => True end).
+    { intros x t. pose proof (IH ret t divs ltac:(lia)) as H. destruct (scan us ret t divs); cbn; auto; simpl; lia. }
+    destruct (prefix u s).
+    + destruct (String.eqb u "m" && prefix "mol" s); [apply C|].
+      destruct (parse_exp divs (sdrop (String.length u) s)) as [[e s2]|]; [|exact I].
+      destruct (negb (r =? 0)%Z); [exact I|]. cbv zeta.
+      match goal with |- match (if ?c then _ else _) with _ => _ end => destruct c end; [|apply C].
+      destruct (divs =? -1)%Z; [exact I|reflexivity].
+    + destruct (prefix "/" s); [|apply C]. destruct (divs =? -1)%Z; [exact I|reflexivity].
+Qed.
+
+Definition sweep_spec (n0 : nat) (pre : list Z) (st : pstate) (divs : Z) (res : scan_result) : Prop :=
+  match res with
+  | ScanDone s' l => forall fuel, W (n0 + fuel) st = W fuel (s', (pre ++ l)%list, 9%Z, divs)
+  | ScanSlash s' l => exists n, (1 <= n <= n0)%nat /\ forall fuel, W (n + fuel) st = W fuel (s', (pre ++ l)%list, 0%Z, (-1)%Z)
+  | ScanErr => exists n, (1 <= n <= n0)%nat /\ forall fuel, W (n + fuel) st = Raise ValueError
+  end.
+
+Lemma sweep_cons : forall x pre st st1 divs n0 res,
+  (forall k, W (S k) st = W k st1) ->
+  sweep_spec n0 (pre ++ [x])%list st1 divs res ->
+  sweep_spec (S n0) pre st divs (cons_res x res).
+Proof.
+  intros x pre st st1 divs n0 res H1 Hs. destruct res as [s' l|s' l|]; cbn [cons_res sweep_spec] in *.
+  - intros fuel. cbn [Nat.add]. rewrite H1, Hs, <- app_assoc. reflexivity.
+  - destruct Hs as (n & Hn & Hf). exists (S n). split; [lia|]. intros fuel. cbn [Nat.add]. rewrite H1, Hf, <- app_assoc. reflexivity.
+  - destruct Hs as (n & Hn & Hf). exists (S n). split; [lia|]. intros fuel. cbn [Nat.add]. rewrite H1, Hf. reflexivity.
+Qed.
+
+Lemma sweep : forall rest prenames pre ret' s divs,
+  (prenames ++ rest)%list = si_names -> List.length prenames = List.length pre -> List.length ret' = List.length rest ->
+  sweep_spec (List.length rest) pre (s, (pre ++ ret')%list, Z.of_nat (List.length pre), divs) divs (scan rest ret' s divs).
+Proof.
+  induction rest as [|u rest IH]; intros prenames pre ret' s divs Hn Hl Hr.
+  - destruct ret'; [|discriminate]. cbn [scan sweep_spec List.length Nat.add]. intros fuel.
+    rewrite app_nil_r in Hn. subst prenames. rewrite <- Hl. reflexivity.
+  - destruct ret' as [|r ret']; [discriminate|]. simpl in Hr.
+    assert (Hn' : ((prenames ++ [u]) ++ rest)%list = si_names) by (rewrite <- app_assoc; exact Hn).
+    assert (Hl' : forall x : Z, List.length (prenames ++ [u]) = List.length (pre ++ [x])) by (intros; rewrite !app_length; simpl; lia).
+    (* the next position, entry x stored at this one *)
+    assert (Next : forall x t, step_m u pre r ret' s divs = Val (t, (pre ++ x :: ret')%list, Z.of_nat (S (List.length pre)), divs) ->
+              sweep_spec (S (List.length rest)) pre (s, (pre ++ r :: ret')%list, Z.of_nat (List.length pre), divs) divs
+                         (cons_res x (scan rest ret' t divs))).
+    { intros x t Hstep. apply sweep_cons with (st1 := (t, ((pre ++ [x]) ++ ret')%list, Z.of_nat (List.length (pre ++ [x])), divs)).
+      - intros k. rewrite (W_step prenames u rest pre r ret' s divs k Hn Hl), Hstep. cbn [bind].
+        rewrite <- app_assoc, app_length. simpl. rewrite Nat.add_1_r. reflexivity.
+      - apply (IH (prenames ++ [u])%list (pre ++ [x])%list ret' t divs Hn' (Hl' x)). lia. }
+    assert (Slash : forall x t, step_m u pre r ret' s divs = slash_m divs pre ret' t x ->
+              sweep_spec (S (List.length rest)) pre (s, (pre ++ r :: ret')%list, Z.of_nat (List.length pre), divs) divs
+                (if prefix "/" t then (if (divs =? -1)%Z then ScanErr else ScanSlash (sdrop 1 t) (x :: ret'))
+                 else cons_res x (scan rest ret' t divs))).
+    { intros x t Hstep. unfold slash_m in Hstep. destruct (prefix "/" t) eqn:P.
+      - destruct (divs =? -1)%Z eqn:D; cbn [sweep_spec].
+        + exists 1%nat. split; [lia|]. intros fuel. cbn [Nat.add].
+          rewrite (W_step prenames u rest pre r ret' s divs fuel Hn Hl), Hstep. reflexivity.
+        + exists 1%nat. split; [lia|]. intros fuel. cbn [Nat.add].
+          rewrite (W_step prenames u rest pre r ret' s divs fuel Hn Hl), Hstep. cbn [bind].
+          rewrite py_str_drop_sdrop. reflexivity.
+      - apply Next. exact Hstep. }
+    assert (Err : step_m u pre r ret' s divs = Raise ValueError ->
+              sweep_spec (S (List.length rest)) pre (s, (pre ++ r :: ret')%list, Z.of_nat (List.length pre), divs) divs ScanErr).
+    { intros Hstep. exists 1%nat. split; [lia|]. intros fuel. cbn [Nat.add].
+      rewrite (W_step prenames u rest pre r ret' s divs fuel Hn Hl), Hstep. reflexivity. }
+    cbn [scan List.length]. unfold step_m in Next, Slash, Err. rewrite py_str_drop_sdrop in Next, Slash, Err.
+    destruct (prefix u s).
+    + destruct (String.eqb u "m" && prefix "mol" s); [apply Next; reflexivity|].
+      destruct (parse_exp divs (sdrop (String.length u) s)) as [[e s2]|]; [|apply Err; reflexivity].
+      destruct (negb (r =? 0)%Z); [apply Err; reflexivity|]. cbv zeta.
+      apply Slash. reflexivity.
+    + apply Slash. reflexivity.
+Qed.
+
+Lemma pfinish_eq : forall s ret i d,
+  pfinish (s, ret, i, d) = if String.eqb s "" then Val ret else Raise ValueError.
+Proof. intros. unfold pfinish. rewrite py_len_zero. destruct (String.eqb s ""); reflexivity. Qed.
+
+(* SI.str_to_sisig *)
+Theorem gen_SI_str_to_sisig_eq : forall s, gen_SI_str_to_sisig N M s = str_to_sisig s.
+Proof.
+  intros s. rewrite gen_parser_unfold. unfold str_to_sisig. fold (W 64 (s, sig0, 0%Z, 1%Z)).
+  pose proof (sweep si_names [] [] sig0 s 1%Z eq_refl eq_refl eq_refl) as S1.
+  pose proof (scan_length si_names sig0 s 1%Z eq_refl) as L1.
+  cbn [app List.length Z.of_nat] in S1. change (Datatypes.length si_names) with 9%nat in S1.
+  destruct (scan si_names sig0 s 1) as [s1 l1|s1 l1|]; cbn [sweep_spec] in S1.
+  - change 64%nat with (9 + 55)%nat. rewrite S1. change 55%nat with (S 54). rewrite W_done. cbn [bind]. apply pfinish_eq.
+  - destruct S1 as (n & Hn & Hf). replace 64%nat with (n + (64 - n))%nat by lia. rewrite Hf.
+    pose proof (sweep si_names [] [] l1 s1 (-1)%Z eq_refl eq_refl L1) as S2.
+    cbn [app List.length Z.of_nat] in S2. change (Datatypes.length si_names) with 9%nat in S2.
+    pose proof (scan_neg_no_slash si_names l1 s1) as NS.
+    destruct (scan si_names l1 s1 (-1)) as [s2 l2|s2 l2|]; cbn [sweep_spec] in S2.
+    + replace (64 - n)%nat with (9 + (55 - n))%nat by lia. rewrite S2.
+      replace (55 - n)%nat with (S (54 - n)) by lia. rewrite W_done. cbn [bind]. apply pfinish_eq.
+    + exfalso. eapply NS. reflexivity.
+    + destruct S2 as (n2 & Hn2 & Hf2). replace (64 - n)%nat with (n2 + (64 - n - n2))%nat by lia. rewrite Hf2. reflexivity.
+  - destruct S1 as (n & Hn & Hf). replace 64%nat with (n + (64 - n))%nat by lia. rewrite Hf. reflexivity.
+Qed.
+
+(* SI(value, unit) *)
+Lemma str_to_sisig_length : forall s l, str_to_sisig s = Val l -> List.length l = 9%nat.
+Proof.
+  intros s l. unfold str_to_sisig.
+  pose proof (scan_length si_names sig0 s 1%Z eq_refl) as L1.
+  destruct (scan si_names sig0 s 1) as [s1 l1|s1 l1|]; [|  |discriminate].
+  - destruct (String.eqb s1 ""); [|discriminate]. intros H. inversion H; subst. exact L1.
+  - pose proof (scan_length si_names l1 s1 (-1)%Z L1) as L2.
+    destruct (scan si_names l1 s1 (-1)) as [s2 l2|s2 l2|]; try discriminate.
+    destruct (String.eqb s2 ""); [|discriminate]. intros H. inversion H; subst. rewrite L2. exact L1.
+Qed.
+
+Theorem gen_SI_construct_eq : forall (v : pyval) (u : string), is_quantity N v = false ->
+  gen_SI_construct N M (conc v) u = rmap conc (mk_si N v u).
+Proof.
+  intros v u Hv. unfold gen_SI_construct, gen_SI___init__, mk_si. cbv zeta. rewrite gen_SI___new___eq by assumption.
+  destruct v as [c a u0|sg a|x|]; try discriminate; [|reflexivity]. psimp.
+  destruct (String.eqb u ""); psimp.
+  - rewrite siunit_text by reflexivity. reflexivity.
+  - rewrite gen_SI_str_to_sisig_eq. destruct (str_to_sisig u) as [l|e] eqn:E; [|reflexivity]. psimp.
+    rewrite siunit_text by (eapply str_to_sisig_length; eauto). reflexivity.
+Qed.
+
+(* ====================================================================== *)
+(* a whole call through the generated methods is [Dispatch.eval]            *)
+(* ====================================================================== *)
+(* The operator protocol of Python (which method an expression  x op y  calls: the left operand's own
+   method; for a number or str on the left the reflected method of the right operand, for an ordering the
+   mirrored comparison) is spelled out here as in Dispatch.left_method / reflected; the METHODS it calls
+   are the generated ones. *)
+Definition abs (g : gval) : pyval :=
+  match g with
+  | GNamed c a u => VNamed c a u
+  | GSI a sg _ => VSI sg a
+  | GNum x => VNum x
+  | GStrObj => VStr
+  end.
+
+Lemma abs_conc : forall v, abs (conc v) = v.
+Proof. intros [c a u|sg a|x|]; reflexivity. Qed.
+
+Definition glift (r : result gval) : R N := match r with Val g => Val (OVal (abs g)) | Raise e => Raise e end.
+
+Lemma glift_conc : forall r, glift (rmap conc r) = lift N r.
+Proof. intros [v|e]; [cbn; rewrite abs_conc|]; reflexivity. Qed.
+
+Definition gen_cmp_Quantity (o : cmpop) (x y : gval) : result bool :=
+  match o with
+  | CEq => gen_Quantity___eq__ N M x y | CNe => gen_Quantity___ne__ N M x y
+  | CLt => gen_Quantity___lt__ N M x y | CLe => gen_Quantity___le__ N M x y
+  | CGt => gen_Quantity___gt__ N M x y | CGe => gen_Quantity___ge__ N M x y
+  end.
+Definition gen_cmp_SI (o : cmpop) (x y : gval) : result bool :=
+  match o with
+  | CEq => gen_SI___eq__ N M x y | CNe => gen_SI___ne__ N M x y
+  | CLt => gen_SI___lt__ N M x y | CLe => gen_SI___le__ N M x y
+  | CGt => gen_SI___gt__ N M x y | CGe => gen_SI___ge__ N M x y
+  end.
+
+(* x op y with a Quantity / SI instance on the left *)
+Definition gen_left_method (op : binop) (x y : gval) : R N :=
+  match x with
+  | GNamed _ _ _ =>
+      match op with
+      | Mul => glift (gen_Quantity___mul__ N M x y)
+      | Div => glift (gen_Quantity___truediv__ N M x y)
+      | Add => glift (gen_Quantity___add__ N M x y)
+      | Sub => glift (gen_Quantity___sub__ N M x y)
+      | Cmp o => lift_bool N (gen_cmp_Quantity o x y)
+      end
+  | GSI _ _ _ =>
+      match op with
+      | Mul => glift (gen_SI___mul__ N M x y)
+      | Div => glift (gen_SI___truediv__ N M x y)
+      | Add => glift (gen_SI___add__ N M x y)
+      | Sub => glift (gen_SI___sub__ N M x y)
+      | Cmp o => lift_bool N (gen_cmp_SI o x y)
+      end
+  | _ => Raise Unmodelled
+  end.
+
+(* x op y with a number or a str on the left and a Quantity / SI instance y on the right *)
+Definition gen_reflected (op : binop) (x y : gval) : R N :=
+  match y with
+  | GNamed _ _ _ =>
+      match op with
+      | Mul => glift (gen_Quantity___rmul__ N M y x)
+      | Div => glift (gen_Quantity___rtruediv__ N M y x)
+      | Add => glift (gen_Quantity___radd__ N M y x)
+      | Sub => glift (gen_Quantity___rsub__ N M y x)
+      | Cmp o => lift_bool N (gen_cmp_Quantity (cmp_swap o) y x)
+      end
+  | GSI _ _ _ =>
+      match op with
+      | Mul => glift (gen_SI___rmul__ N M y x)
+      | Div => glift (gen_SI___rtruediv__ N M y x)
+      | Add => glift (gen_SI___radd__ N M y x)
+      | Sub => glift (gen_SI___rsub__ N M y x)
+      | Cmp o => lift_bool N (gen_cmp_SI (cmp_swap o) y x)
+      end
+  | _ => Raise Unmodelled
+  end.
+
+Definition gen_binop_eval (op : binop) (x y : pyval) : R N :=
+  if is_quantity N x then gen_left_method op (conc x) (conc y)
+  else if is_quantity N y then gen_reflected op (conc x) (conc y)
+  else Raise Unmodelled.
+
+Lemma gen_cmp_Quantity_eq : forall o c (a : num) u other,
+  gen_cmp_Quantity o (GNamed c a u) (conc other) = q_cmp N o c a other.
+Proof.
+  intros [] c a u other; cbn [gen_cmp_Quantity];
+    [apply gen_Quantity___eq___eq|apply gen_Quantity___ne___eq|apply gen_Quantity___lt___eq
+    |apply gen_Quantity___le___eq|apply gen_Quantity___gt___eq|apply gen_Quantity___ge___eq].
+Qed.
+
+Lemma gen_cmp_SI_eq : forall o sg (a : num) other,
+  gen_cmp_SI o (conc (VSI sg a)) (conc other) = si_cmp N o sg a other.
+Proof.
+  intros [] sg a other; cbn [gen_cmp_SI];
+    [apply gen_SI___eq___eq|apply gen_SI___ne___eq|apply gen_SI___lt___eq
+    |apply gen_SI___le___eq|apply gen_SI___gt___eq|apply gen_SI___ge___eq].
+Qed.
+
+Theorem gen_left_method_eq : forall op x y, is_quantity N x = true -> val_ok x -> val_ok y ->
+  gen_left_method op (conc x) (conc y) = left_method N M op x y.
+Proof.
+  intros op [c a u|sg a|v|] y Hq Hx Hy; try discriminate.
+  - destruct Hx as [q Hc]. destruct op; cbn [gen_left_method left_method conc].
+    + rewrite (gen_Quantity___mul___eq c q a u y Hc Hy). apply glift_conc.
+    + rewrite (gen_Quantity___truediv___eq c q a u y Hc Hy). apply glift_conc.
+    + rewrite gen_Quantity___add___eq. apply glift_conc.
+    + rewrite gen_Quantity___sub___eq. apply glift_conc.
+    + rewrite gen_cmp_Quantity_eq. reflexivity.
+  - destruct op; cbn [gen_left_method left_method conc]; change (GSI a sg (si_unit_text sg)) with (conc (VSI sg a)).
+    + rewrite (gen_SI___mul___eq sg a y Hx Hy). apply glift_conc.
+    + rewrite (gen_SI___truediv___eq sg a y Hx Hy). apply glift_conc.
+    + rewrite gen_SI___add___eq. apply glift_conc.
+    + rewrite gen_SI___sub___eq. apply glift_conc.
+    + rewrite gen_cmp_SI_eq. reflexivity.
+Qed.
+
+Lemma rdiv_model_reflected : forall x y, is_quantity N x = false -> is_quantity N y = true ->
+  lift N (rdiv_model y x) = reflected N M Div x y.
+Proof.
+  intros x y Hx Hy. unfold rdiv_model, reflected.
+  destruct x as [c a u|sg a|v|]; try discriminate; [|reflexivity].
+  unfold dimensionless_of. destruct (qm_dimensionless M) as [d|]; [|reflexivity].
+  destruct (mk N M d (VNum v) None) as [r|e] eqn:E; [|reflexivity].
+  destruct (mk_num_none_shape _ _ _ E) as (a & b & ->). reflexivity.
+Qed.
+
+Theorem gen_reflected_eq : forall op x y, is_quantity N x = false -> is_quantity N y = true -> val_ok y ->
+  gen_reflected op (conc x) (conc y) = reflected N M op x y.
+Proof.
+  intros op x [c a u|sg a|v|] Hx Hq Hy; try discriminate.
+  - destruct Hy as [q Hc].
+    assert (Hxo : val_ok x) by (destruct x; try discriminate; exact I).
+    destruct op; cbn [gen_reflected conc].
+    + rewrite (gen_Quantity___rmul___eq c q a u x Hc Hxo). apply glift_conc.
+    + rewrite (gen_Quantity___rtruediv___eq c q a u x Hc Hx), glift_conc. apply rdiv_model_reflected; auto.
+    + rewrite gen_Quantity___radd___eq. apply glift_conc.
+    + rewrite (gen_Quantity___rsub___eq c a u x Hx). destruct x as [c2 b u2|sg2 b|w|]; try discriminate; cbn [reflected left_method].
+      * apply glift_conc.
+      * reflexivity.
+    + rewrite gen_cmp_Quantity_eq. reflexivity.
+  - assert (Hxo : val_ok x) by (destruct x; try discriminate; exact I).
+    destruct op; cbn [gen_reflected conc]; change (GSI a sg (si_unit_text sg)) with (conc (VSI sg a)).
+    + rewrite (gen_SI___rmul___eq sg a x Hy Hxo). apply glift_conc.
+    + rewrite (gen_SI___rtruediv___eq sg a x Hy Hx), glift_conc. apply rdiv_model_reflected; auto.
+    + rewrite gen_SI___radd___eq. apply glift_conc.
+    + rewrite (gen_SI___rsub___eq sg a x Hx). destruct x as [c2 b u2|sg2 b|w|]; try discriminate; cbn [reflected left_method].
+      * apply glift_conc.
+      * reflexivity.
+    + rewrite gen_cmp_SI_eq. reflexivity.
+Qed.
+
+Theorem gen_binop_eval_eq : forall op x y, val_ok x -> val_ok y ->
+  gen_binop_eval op x y = binop_eval N M op x y.
+Proof.
+  intros op x y Hx Hy. unfold gen_binop_eval, binop_eval.
+  destruct (is_quantity N x) eqn:Qx; [apply gen_left_method_eq; auto|].
+  destruct (is_quantity N y) eqn:Qy; [apply gen_reflected_eq; auto|reflexivity].
+Qed.
+
+(* ---------- unary operators ---------- *)
+Definition gen_unop_eval (op : unop) (x : pyval) : R N :=
+  match conc x with
+  | GNamed _ _ _ as g =>
+      glift (match op with Neg => gen_Quantity___neg__ N M g | Abs => gen_Quantity___abs__ N M g | Pos => gen_Quantity___pos__ N M g end)
+  | GSI _ _ _ as g =>
+      glift (match op with Neg => gen_SI___neg__ N M g | Abs => gen_SI___abs__ N M g | Pos => gen_SI___pos__ N M g end)
+  | _ => Raise Unmodelled
+  end.
+
+Theorem gen_unop_eval_eq : forall op x, gen_unop_eval op x = unop_eval N M op x.
+Proof.
+  intros op [c a u|sg a|v|]; try reflexivity; unfold gen_unop_eval; cbn [conc unop_eval].
+  - destruct op.
+    + rewrite gen_Quantity___neg___eq. apply glift_conc.
+    + rewrite gen_Quantity___abs___eq. apply glift_conc.
+    + reflexivity.
+  - change (GSI a sg (si_unit_text sg)) with (conc (VSI sg a)). destruct op.
+    + rewrite gen_SI___neg___eq. reflexivity.
+    + rewrite gen_SI___abs___eq. reflexivity.
+    + reflexivity.
+Qed.
+
+(* ---------- attribute reads, str(), sisig(), asSI() ---------- *)
+Definition text_suffix (t : pytext N) : result string :=
+  match rev t with PStr s :: _ => Val s | _ => Raise Unmodelled end.
+
+Definition gen_get (g : getter) (x : pyval) : R N :=
+  match g, conc x with
+  | GSi, (GNamed _ _ _ as o) => rmap (@ONum N) (gen_Quantity_si N M o)
+  | GSi, (GSI _ _ _ as o) => rmap (@ONum N) (gen_SI_si N M o)
+  | GDisplayValue, (GNamed _ _ _ as o) => rmap (@ONum N) (gen_Quantity_displayvalue N M o)
+  | GDisplayValue, (GSI _ _ _ as o) => rmap (@ONum N) (gen_SI_displayvalue N M o)
+  | GUnit, (GNamed _ _ _ as o) => rmap (@OText N) (gen_Quantity_unit N M o)
+  | GUnit, (GSI _ _ _ as o) => rmap (@OText N) (gen_SI_unit N M o)
+  | GStrSuffix, (GNamed _ _ _ as o) => rmap (@OText N) (do t <- gen_Quantity___str__ N M o; text_suffix t)
+  | GStrSuffix, (GSI _ _ _ as o) => rmap (@OText N) (do t <- gen_SI___str__ N M o; text_suffix t)
+  | GSisig, (GNamed _ _ _ as o) | GSisig, (GSI _ _ _ as o) => rmap (@OSig N) (dyn_sisig N M o)
+  | GAsSI, (GNamed _ _ _ as o) => glift (gen_Quantity_asSI N M o)
+  | _, _ => Raise Unmodelled
+  end.
+
+Theorem gen_get_eq : forall g x, gen_get g x = get N M g x.
+Proof.
+  intros g [c a u|sg a|v|]; destruct g; try reflexivity; unfold gen_get; cbn [conc get].
+  - rewrite gen_Quantity_displayvalue_eq. destruct (displayvalue N M (VNamed c a u)); reflexivity.
+  - rewrite gen_Quantity___str___eq. unfold str_suffix.
+    destruct (displayvalue N M (VNamed c a u)); [|reflexivity]. destruct (with_class _ _ _); reflexivity.
+  - rewrite dyn_sisig_named. destruct (class_sig_of M c); reflexivity.
+  - rewrite gen_Quantity_asSI_eq. apply glift_conc.
+Qed.
+
+(* ---------- siunit(div, hat, dot) ---------- *)
+Definition gen_siunit_of (x : pyval) (d : bool) (h t : string) : R N :=
+  match conc x with
+  | GSI _ _ _ as o => rmap (@OText N) (gen_SI_siunit N M o d h t)
+  | GNamed c _ _ => rmap (@OText N) (gen_Quantity_siunit N M c d h t)
+  | _ => Raise Unmodelled
+  end.
+
+Theorem gen_siunit_of_eq : forall x d h t, val_ok x -> gen_siunit_of x d h t = siunit_of N M x d h t.
+Proof.
+  intros [c a u|sg a|v|] d h t Hx; try reflexivity; unfold gen_siunit_of; cbn [conc siunit_of].
+  - rewrite gen_Quantity_siunit_eq. destruct (class_sig_of M c); reflexivity.
+  - rewrite (gen_SI_siunit_eq a sg _ d h t Hx). reflexivity.
+Qed.
+
+(* ---------- re-expression in every declared unit (a loop of the check, not of the code) ---------- *)
+Fixpoint gen_reexpress_units (x : pyval) (us : list (gstr * gfactor)) : result (list num) :=
+  match us with
+  | [] => Val []
+  | (GStr u, _) :: r =>
+      match gen_Quantity_as_unit N M (conc x) u with
+      | Val gy =>
+          match abs gy, gen_Quantity_displayvalue N M gy, gen_reexpress_units x r with
+          | VNamed _ a _, Val d, Val l => Val (a :: d :: l)
+          | _, Raise e, _ => Raise e
+          | _, _, Raise e => Raise e
+          | _, _, _ => Raise Unmodelled
+          end
+      | Raise e => Raise e
+      end
+  | (Bad_str _, _) :: _ => Raise Unmodelled
+  end.
+
+Lemma as_unit_shape : forall c a u nu r, as_unit N M (VNamed c a u) nu = Val r -> exists y, r = VNamed c y nu.
+Proof.
+  intros c a u nu r. unfold as_unit, with_class. destruct (get_class (qm_classes M) c) as [q|]; [|discriminate].
+  destruct (negb (gmem nu (qc_units q))); [discriminate|]. unfold q_val.
+  destruct (mk N M c (VNum a) None) as [m|] eqn:E; [|discriminate].
+  destruct (mk_num_none_shape _ _ _ E) as (y & b & ->). intros H. inversion H. eauto.
+Qed.
+
+Lemma gen_reexpress_units_eq : forall c a u us,
+  gen_reexpress_units (VNamed c a u) us = reexpress_units N M (VNamed c a u) us.
+Proof.
+  intros c a u. induction us as [|[[nu|bad] f] us IH]; cbn [gen_reexpress_units reexpress_units]; try reflexivity.
+  cbn [conc]. rewrite gen_Quantity_as_unit_eq.
+  destruct (as_unit N M (VNamed c a u) nu) as [r|e] eqn:E; [|reflexivity]. cbn [rmap].
+  destruct (as_unit_shape _ _ _ _ _ E) as [y ->]. cbn [conc abs]. rewrite gen_Quantity_displayvalue_eq, IH. reflexivity.
+Qed.
+
+Definition gen_reexpress (x : pyval) : R N :=
+  match x with
+  | VNamed c _ _ =>
+      match get_class T c with
+      | Some q => match gen_reexpress_units x (qc_units q) with Val l => Val (ONums l) | Raise e => Raise e end
+      | None => Raise Unmodelled
+      end
+  | _ => Raise Unmodelled
+  end.
+
+(* ---------- one observable call ---------- *)
+Definition gen_eval (k : call N) : R N :=
+  match k with
+  | CBin op x y => gen_binop_eval op x y
+  | CUn op x => gen_unop_eval op x
+  | CMk c v u => glift (gen_Quantity_construct N M c (conc v) u)
+  | CMkSI v u => glift (gen_SI_construct N M (conc v) u)
+  | CGet g x => gen_get g x
+  | CAsUnit x u => match x with
+                   | VNamed _ _ _ => glift (gen_Quantity_as_unit N M (conc x) u)
+                   | _ => Raise Unmodelled
+                   end
+  | CAsQuantity x t => match x with
+                       | VSI _ _ => glift (gen_SI_as_quantity N M (conc x) (tconc t))
+                       | _ => Raise Unmodelled
+                       end
+  | CSiunit x d h t => gen_siunit_of x d h t
+  | CReexpress x => gen_reexpress x
+  | CParse s => rmap (@OSig N) (gen_SI_str_to_sisig N M s)
+  end.
+
+(* the operands of a call are objects of the model's closed world; a constructor is given a number or a str *)
+Definition call_ok (k : call N) : Prop :=
+  match k with
+  | CBin _ x y => val_ok x /\ val_ok y
+  | CMk _ v _ | CMkSI v _ => is_quantity N v = false
+  | CSiunit x _ _ _ => val_ok x
+  | _ => True
+  end.
+
+Theorem gen_eval_eq : forall k, call_ok k -> gen_eval k = eval N M k.
+Proof.
+  intros [op x y|op x|c v u|v u|g x|x u|x t|x d h t|x|s] Hk; cbn [gen_eval eval call_ok] in *.
+  - destruct Hk. apply gen_binop_eval_eq; assumption.
+  - apply gen_unop_eval_eq.
+  - rewrite gen_Quantity_construct_eq by assumption. apply glift_conc.
+  - rewrite gen_SI_construct_eq by assumption. apply glift_conc.
+  - apply gen_get_eq.
+  - destruct x as [c a u0|sg a|v|]; try reflexivity. cbn [conc]. rewrite gen_Quantity_as_unit_eq. apply glift_conc.
+  - destruct x as [c a u0|sg a|v|]; try reflexivity. rewrite gen_SI_as_quantity_eq. apply glift_conc.
+  - apply gen_siunit_of_eq. assumption.
+  - destruct x as [c a u0|sg a|v|]; try reflexivity. unfold gen_reexpress, reexpress. fold T.
+    destruct (get_class T c); [|reflexivity]. rewrite gen_reexpress_units_eq. reflexivity.
+  - rewrite gen_SI_str_to_sisig_eq. destruct (str_to_sisig s); reflexivity.
+Qed.
+
 End Agree.
+
+Arguments conc {N} v.
+Arguments abs {N} g.
+Arguments val_ok {N} M v.
+Arguments call_ok {N} M k.
+
+(* ====================================================================== *)
+(* the agreement, gathered                                                  *)
+(* ====================================================================== *)
+Section Gathered.
+Variable N : numops.
+Variable M : qmodule.
+Hypothesis Hsidict : sidict_wf (qm_classes M) = true.
+Let T := qm_classes M.
+
+(* C16: every arithmetic / comparison method, the conversion back to a named quantity, the SI string
+   functions, and the evaluation of a whole expression *)
+Theorem dispatch_generated_agree :
+  (forall c q a u o, get_class T c = Some q -> val_ok M o ->
+     gen_Quantity___mul__ N M (GNamed c a u) (conc o) = rmap conc (q_mul N M c a u o)) /\
+  (forall c q a u o, get_class T c = Some q -> val_ok M o ->
+     gen_Quantity___truediv__ N M (GNamed c a u) (conc o) = rmap conc (q_div N M c a u o)) /\
+  (forall sg a o, List.length sg = 9%nat -> val_ok M o ->
+     gen_SI___mul__ N M (conc (VSI sg a)) (conc o) = rmap conc (si_mul N M sg a o)) /\
+  (forall sg a o, List.length sg = 9%nat -> val_ok M o ->
+     gen_SI___truediv__ N M (conc (VSI sg a)) (conc o) = rmap conc (si_div N M sg a o)) /\
+  (forall c a u o, gen_Quantity___add__ N M (GNamed c a u) (conc o) = rmap conc (q_addsub N M (fadd N) c a u o)) /\
+  (forall c a u o, gen_Quantity___sub__ N M (GNamed c a u) (conc o) = rmap conc (q_addsub N M (fsub N) c a u o)) /\
+  (forall sg a o, gen_SI___add__ N M (conc (VSI sg a)) (conc o) = rmap conc (si_addsub N (fadd N) sg a o)) /\
+  (forall sg a o, gen_SI___sub__ N M (conc (VSI sg a)) (conc o) = rmap conc (si_addsub N (fsub N) sg a o)) /\
+  (forall op c a u o, gen_cmp_Quantity N M op (GNamed c a u) (conc o) = q_cmp N op c a o) /\
+  (forall op sg a o, gen_cmp_SI N M op (conc (VSI sg a)) (conc o) = si_cmp N op sg a o) /\
+  (forall sg a t, gen_SI_as_quantity N M (conc (VSI sg a)) (tconc t) = rmap conc (as_quantity N M (VSI sg a) t)) /\
+  (forall c, gen_Quantity_sisig N M c = class_sig_of M c) /\
+  (forall a sg u d h t, List.length sg = 9%nat -> gen_SI_siunit N M (GSI a sg u) d h t = Val (siunit sg d h t)) /\
+  (forall s, gen_SI_str_to_sisig N M s = str_to_sisig s) /\
+  (forall op x y, val_ok M x -> val_ok M y -> gen_binop_eval N M op x y = binop_eval N M op x y) /\
+  (forall k, call_ok M k -> gen_eval N M k = eval N M k).
+Proof.
+  repeat split; intros.
+  - eapply gen_Quantity___mul___eq; eauto.
+  - eapply gen_Quantity___truediv___eq; eauto.
+  - eapply gen_SI___mul___eq; eauto.
+  - eapply gen_SI___truediv___eq; eauto.
+  - apply gen_Quantity___add___eq.
+  - apply gen_Quantity___sub___eq.
+  - apply gen_SI___add___eq.
+  - apply gen_SI___sub___eq.
+  - apply gen_cmp_Quantity_eq.
+  - apply gen_cmp_SI_eq.
+  - eapply gen_SI_as_quantity_eq; eauto.
+  - eapply gen_Quantity_sisig_eq; eauto.
+  - eapply gen_SI_siunit_eq; eauto.
+  - apply gen_SI_str_to_sisig_eq.
+  - eapply gen_binop_eval_eq; eauto.
+  - eapply gen_eval_eq; eauto.
+Qed.
+
+(* C17: construction, display value, re-expression, unary operators, str *)
+Theorem conversion_generated_agree :
+  (forall c v unit, is_quantity N v = false ->
+     gen_Quantity_construct N M c (conc v) unit = rmap conc (mk N M c v unit)) /\
+  (forall c a u, gen_Quantity_displayvalue N M (GNamed c a u) = displayvalue N M (VNamed c a u)) /\
+  (forall c a u nu, gen_Quantity_as_unit N M (GNamed c a u) nu = rmap conc (as_unit N M (VNamed c a u) nu)) /\
+  (forall c a x u, gen_Quantity__val N M (GNamed c a u) x = rmap conc (q_val N M c x u)) /\
+  (forall c a u, gen_Quantity___neg__ N M (GNamed c a u) = rmap conc (q_val N M c (fneg N a) u)) /\
+  (forall c a u, gen_Quantity___abs__ N M (GNamed c a u) = rmap conc (q_val N M c (fabs N a) u)) /\
+  (forall v : pyval N, gen_Quantity___pos__ N M (conc v) = Val (conc v)) /\
+  (forall c a u, gen_Quantity___str__ N M (GNamed c a u) =
+     match displayvalue N M (VNamed c a u) with
+     | Raise e => Raise e
+     | Val d => rmap (fun s => [PNum d; PStr " "; PStr s]) (str_suffix N M (VNamed c a u))
+     end) /\
+  (forall v u, is_quantity N v = false -> gen_SI_construct N M (conc v) u = rmap conc (mk_si N v u)) /\
+  (forall op x, gen_unop_eval N M op x = unop_eval N M op x) /\
+  (forall g x, gen_get N M g x = get N M g x) /\
+  (forall k, call_ok M k -> gen_eval N M k = eval N M k).
+Proof.
+  repeat split; intros.
+  - eapply gen_Quantity_construct_eq; eauto.
+  - apply gen_Quantity_displayvalue_eq.
+  - apply gen_Quantity_as_unit_eq.
+  - apply gen_Quantity__val_eq.
+  - apply gen_Quantity___neg___eq.
+  - apply gen_Quantity___abs___eq.
+  - apply gen_Quantity___str___eq.
+  - eapply gen_SI_construct_eq; eauto.
+  - apply gen_unop_eval_eq.
+  - eapply gen_get_eq; eauto.
+  - eapply gen_eval_eq; eauto.
+Qed.
+End Gathered.
